@@ -176,3 +176,98 @@ End RunNum.
 Definition fresh (s : store) : Prop := msgs s = [] /\ t_seqid s = 0.
 Lemma fresh_inv s n : fresh s -> inv_num (mkState s None n).
 Proof. intros [E1 E2]. unfold inv_num, seqs. cbn. rewrite E1, E2. cbn. repeat split; try lia; try constructor; intros k []. Qed.
+
+(* ------------------------------------------------------------------ *)
+(* only an accepted publish acknowledges a number or advances lastID *)
+Definition nonack (fr : frame) : bool := negb (is_ack fr).
+Lemma plain_nonack fr : plain fr = true -> nonack fr = true.
+Proof.
+  destruct fr; cbn; try discriminate; auto.
+  all: intros H; apply andb_true_iff in H; destruct H as [H _]; apply negb_true_iff in H; apply Z.eqb_neq in H;
+    unfold nonack, is_ack; destruct code as [|p|p]; auto; repeat (destruct p; auto); lia.
+Qed.
+Lemma all_plain_nonack o : all_out plain o -> all_out nonack o.
+Proof. intros H e He. apply plain_nonack. auto. Qed.
+Lemma all_info_nonack o : all_out is_info o -> all_out nonack o.
+Proof. intros H e He. specialize (H e He). destruct (snd e); try discriminate; reflexivity. Qed.
+Lemma get_data_nonack f s c n sid u a b l : all_out nonack (h_out (get_data f s c n sid u a b l)).
+Proof.
+  unfold get_data. repeat break_match; cbn [h_out]; try solve [apply all_plain_nonack; out_solve].
+  apply all_out_app; [|apply all_plain_nonack; out_solve].
+  intros e He. apply in_map_iff in He. destruct He as [m0 [<- _]]. reflexivity.
+Qed.
+Lemma get_desc_nonack s c n sid u : all_out nonack (h_out (get_desc s c n sid u)).
+Proof. unfold get_desc. repeat break_match; cbn [h_out]; intros e [<-|[]]; reflexivity. Qed.
+Lemma offline_get_desc_nonack f s sid u : all_out nonack (o_out (offline_get_desc f s sid u)).
+Proof. unfold offline_get_desc. repeat break_match; cbn [o_out]; intros e [<-|[]]; reflexivity. Qed.
+
+Section StepLast.
+Variable dr : Z -> list (Z * Z) -> option (list (Z * Z)).
+Variable nr : list (Z * Z) -> list (Z * Z).
+Variable sm : sessmap.
+
+Definition lastid_of (x : state) : option Z := option_map c_lastid (ca x).
+
+(* A step that is not a publish by an attached session acknowledges nothing and,
+   if the topic stays loaded, leaves lastID alone. *)
+Lemma step_nonpub f x o c :
+  ca x = Some c ->
+  (forall sid content noecho, o = OPub sid content noecho -> attached c sid = false) ->
+  all_out nonack (snd (step dr nr sm f x o)) /\
+  (forall c', ca (fst (step dr nr sm f x o)) = Some c' -> c_lastid c' = c_lastid c).
+Proof.
+  intros Hc NP. destruct x as [s cx n0]. cbn [ca] in Hc. subst cx.
+  assert (forall h, hframe s c h -> forall c', Some (h_ca h) = Some c' -> c_lastid c' = c_lastid c) as HF.
+  { intros h [_ [E _]] c' H. inv H. exact E. }
+  destruct o; unfold step; cbn [st ca negb].
+  - destruct (attached c sid); cbn [fst snd ca].
+    + split; [apply all_plain_nonack; apply code_plain; lia|intros c' H; now inv H].
+    + split; [apply all_plain_nonack; apply sub_reply_out|apply HF; apply sub_reply_frame].
+  - destruct (attached c sid) eqn:AT; cbn [negb fst snd ca].
+    + destruct unsub; cbn [fst snd ca].
+      * split; [apply all_plain_nonack; apply leave_unsub_out|apply HF; apply leave_unsub_frame].
+      * pose proof (leave_out c sid (match alookup sid (c_sess c) with Some (a, _) => a | None => sess_uid sm sid end)) as LO.
+        pose proof (leave_frame c sid (match alookup sid (c_sess c) with Some (a, _) => a | None => sess_uid sm sid end)) as [LF _].
+        destruct (leave c sid _) as [c1 o1]. cbn [fst snd ca h_ca h_out] in *.
+        split; [apply all_plain_nonack; exact LO|intros c' H; inv H; exact LF].
+    + split; [apply all_plain_nonack; destruct unsub; apply code_plain; lia|intros c' H; now inv H].
+  - destruct (attached c sid) eqn:AT; cbn [negb fst snd ca].
+    + specialize (NP sid content noecho eq_refl). congruence.
+    + split; [apply all_plain_nonack; apply code_plain; lia|intros c' H; now inv H].
+  - destruct (attached c sid); cbn [negb fst snd ca]; repeat break_match; cbn [fst snd ca];
+      try (split; [first [apply all_plain_nonack; first [apply all_out_nil | apply code_plain; lia]]|intros c' H; now inv H]);
+      (split; [apply all_info_nonack; apply note_out|apply HF; apply note_frame]).
+  - destruct (attached c sid); cbn [negb fst snd ca].
+    + split; [apply get_data_nonack|apply HF; apply get_data_frame].
+    + split; [apply all_plain_nonack; apply code_plain; lia|intros c' H; now inv H].
+  - destruct (attached c sid); cbn [negb fst snd ca].
+    + split; [apply get_desc_nonack|apply HF; apply get_desc_frame].
+    + split; [apply offline_get_desc_nonack|intros c' H; now inv H].
+  - destruct (attached c sid); cbn [negb fst snd ca].
+    + split; [apply all_plain_nonack; apply get_sub_out|apply HF; apply get_sub_frame].
+    + split; [apply all_plain_nonack; apply offline_get_sub_out|intros c' H; now inv H].
+  - destruct (attached c sid); cbn [negb fst snd ca].
+    + split; [apply all_plain_nonack; apply get_del_out|apply HF; apply get_del_frame].
+    + split; [apply all_plain_nonack; apply code_plain; lia|intros c' H; now inv H].
+  - destruct (attached c sid); cbn [negb fst snd ca].
+    + split; [apply all_plain_nonack; apply del_msg_out|].
+      intros c' H. inv H. apply del_msg_num.
+    + split; [apply all_plain_nonack; apply code_plain; lia|intros c' H; now inv H].
+  - destruct (attached c sid); cbn [negb fst snd ca].
+    + split; [apply all_plain_nonack; apply set_sub_out|apply HF; apply set_sub_frame].
+    + split; [apply all_plain_nonack; apply offline_set_sub_out|intros c' H; now inv H].
+  - destruct (attached c sid); cbn [negb fst snd ca].
+    + split; [apply all_plain_nonack; apply del_sub_out|apply HF; apply del_sub_frame].
+    + split; [apply all_plain_nonack; apply code_plain; lia|intros c' H; now inv H].
+  - destruct (c_sess c); cbn [fst snd ca]; (split; [apply all_out_nil|intros c' H; try discriminate; now inv H]).
+  - cbn [fst snd ca]. split; [apply all_out_nil|intros c' H; discriminate].
+Qed.
+
+(* a publish by an attached session: the characterisation of [publish] applies *)
+Lemma step_pub f s c n0 sid content noecho :
+  attached c sid = true ->
+  step dr nr sm f (mkState s (Some c) n0) (OPub sid content noecho) =
+  (let h := publish f s c 0 sid (sess_uid sm sid) content noecho in
+   (mkState (h_st h) (Some (h_ca h)) (h_n h), h_out h)).
+Proof. intros AT. unfold step. cbn [st ca]. rewrite AT. reflexivity. Qed.
+End StepLast.
